@@ -114,6 +114,7 @@ where
                     let clause = args_in_cc
                         .iter()
                         .map(|a| self.constraints_encoder.arg_to_lit(a))
+                        .chain(std::iter::once(selector.negate()))
                         .collect::<Vec<Literal>>();
                     opt_selector = Some(selector);
                     solver.add_clause(clause);
